@@ -71,6 +71,7 @@ Definition name_opt (nm : name) : option ustring :=
 Open Scope string_scope.
 Definition s_Inner : ustring := ulit "Inner".
 Definition s_Item : ustring := ulit "Item".
+Definition s_item : ustring := ulit "item".
 Definition s_Value : ustring := ulit "Value".
 Definition s_i64 : ustring := ulit "i64".
 Definition s_f64 : ustring := ulit "f64".
@@ -213,6 +214,8 @@ Definition udet_eqb (a b : details) : bool :=
   match a, b with
   | DOption x, DOption y => x =? y
   | DVec x, DVec y => x =? y
+  | DSet x, DSet y => x =? y
+  | DArray x n, DArray y m => (x =? y) && (n =? m)
   | DMap k v, DMap k' v' => (k =? k') && (v =? v')
   | DUnit, DUnit | DBoolean, DBoolean | DString, DString | DJsonValue, DJsonValue => true
   | DInteger x, DInteger y => ustr_eqb x y
@@ -275,6 +278,11 @@ Fixpoint ins_prop (p : prop) (l : list prop) : list prop :=
 Definition sort_props (l : list prop) : list prop := fold_right ins_prop [] l.
 
 (* ------------------------------------------------------------------ dispatch *)
+(* convert.rs:1760-1875: which sequence type an array schema becomes *)
+Inductive seqc := CVec | CSet | CArr (n : N).
+Definition seq_det (c : seqc) (i : id) : details :=
+  match c with CVec => DVec i | CSet => DSet i | CArr n => DArray i n end.
+
 Inductive kind :=
 | KBool | KStr | KNull | KNum
 | KStrC (mx mn : option N) (pat : option ustring)     (* constrained string newtype *)
@@ -282,7 +290,7 @@ Inductive kind :=
 | KEnum (raws : list ustring)
 | KStruct (deny : bool)
 | KMap
-| KVec | KVecAny
+| KVec (c : seqc) | KVecAny (c : seqc)     (* Vec / Set / fixed-length array, with / without item schema *)
 | KRef (r : ustring)
 | KAny.
 
@@ -341,7 +349,7 @@ Section Classify.
   (* keywords no arm of the fragment looks at *)
   Definition no_extras : bool :=
     is_none cst && is_none ai
-    && negb uq && is_none mnp && is_none mxp && is_none allo && is_none anyo && is_none oneo
+    && is_none mnp && is_none mxp && is_none allo && is_none anyo && is_none oneo
     && is_none no && is_none dflt && is_none title.
 
   Definition no_array : bool := items_absent ik && is_nil items.
@@ -357,11 +365,22 @@ Section Classify.
   (* numeric / string validation keywords absent (each arm says which it reads) *)
   Definition no_num : bool := numv_is_none nv.
   Definition no_str : bool := strv_is_none sv.
-  Definition no_len : bool := is_none mni && is_none mxi.
+  Definition no_len : bool := is_none mni && is_none mxi && negb uq.
   (* minItems / maxItems that do not make a fixed-length array (convert.rs:1771-1778 wants them
      equal and > 0; equal and 0 is left out too: a Vec does not enforce it) *)
   Definition len_plain : bool :=
     match mni, mxi with Some a, Some b => negb (a =? b) | _, _ => true end.
+
+  (* convert.rs:1771-1778 / 1830-1868: minItems = maxItems > 0 without uniqueItems -> fixed-length array;
+     otherwise a Set (uniqueItems) or a Vec, whose lengths are not enforced (equal lengths are left out
+     there: the validators would rightly object).  The AST reads `uniqueItems: false` as absent. *)
+  Definition seq_kind : option seqc :=
+    match mni, mxi with
+    | Some a, Some b =>
+        if a =? b then (if (0 <? b) && negb uq && (b <? 4294967296) then Some (CArr b) else None)
+        else Some (if uq then CSet else CVec)
+    | _, _ => Some (if uq then CSet else CVec)
+    end.
 
   Definition kind_of_type (t : itype) : option kind :=
     match t with
@@ -389,11 +408,11 @@ Section Classify.
           end
         else None
     | TArray =>
-        if is_none fmt && is_none enum && no_object && no_num && no_str && len_plain then
-          match ik, items with
-          | ItemsAbsent, [] => Some KVecAny
-          | ItemsSingle, [_] => Some KVec
-          | _, _ => None
+        if is_none fmt && is_none enum && no_object && no_num && no_str then
+          match seq_kind, ik, items with
+          | Some c, ItemsAbsent, [] => Some (KVecAny c)
+          | Some c, ItemsSingle, [_] => Some (KVec c)
+          | _, _, _ => None
           end
         else None
     | TObject =>
@@ -461,6 +480,15 @@ Section Convert.
     | Some s => NSuggested (s ++ s_Item)
     | None => NUnknown
     end.
+
+  (* lib.rs:168-175 Name::append("item") (convert.rs:1811) for fixed-length arrays *)
+  Definition append_item (nm : name) : name :=
+    match nm with
+    | NRequired p | NSuggested p => NSuggested (p ++ [c_uscore] ++ s_item)
+    | NUnknown => NUnknown
+    end.
+  Definition seq_item_name (c : seqc) (nm : name) : name :=
+    match c with CArr _ => append_item nm | _ => item_name nm end.
 
   (* structs.rs:236-239 (type_name.into_option()) *)
   Definition value_name (nm : name) : name :=
@@ -560,16 +588,16 @@ Section Convert.
           | None =>
               let '(vid, s2) := assign DJsonValue (set_json s1) in Some (DMap kid vid, s2)
           end
-      | KVec =>
+      | KVec c =>
           match items with
           | [it] =>
-              match cv it (item_name nm) s with
+              match cv it (seq_item_name c nm) s with
               | None => None
-              | Some (te, s1) => let '(i, s2) := assign te s1 in Some (DVec i, s2)
+              | Some (te, s1) => let '(i, s2) := assign te s1 in Some (seq_det c i, s2)
               end
           | _ => None
           end
-      | KVecAny => let '(i, s1) := assign DJsonValue (set_json s) in Some (DVec i, s1)
+      | KVecAny c => let '(i, s1) := assign DJsonValue (set_json s) in Some (seq_det c i, s1)
       | KRef r => match rid r with Some i => Some (DReference i, s) | None => None end
       | KAny => Some (DJsonValue, set_json s)
       end.
@@ -710,7 +738,7 @@ Section Frag.
                 | None => []
                 end
             | KMap => match ap with Some vs => names_of vs (value_name nm') | None => [] end
-            | KVec => flat_map (fun it => names_of it (item_name cls nm')) items
+            | KVec c => flat_map (fun it => names_of it (seq_item_name cls c nm')) items
             | _ => []
             end
         end
@@ -749,7 +777,7 @@ Section Frag.
                 | Some (SBool true) | None => true
                 | Some vs => frag vs
                 end
-            | KVec => forallb frag items
+            | KVec _ => forallb frag items
             | KRef r => mem_ustr r keys
             | _ => true
             end
@@ -826,7 +854,7 @@ Fixpoint no_nullable_enum (s : schema) {struct s} : bool :=
       | Some (true, KEnum _) => false
       | Some (_, KStruct _) => forallb (fun kv => no_nullable_enum (snd kv)) props
       | Some (_, KMap) => match ap with Some vs => no_nullable_enum vs | None => true end
-      | Some (_, KVec) => forallb no_nullable_enum items
+      | Some (_, KVec _) => forallb no_nullable_enum items
       | _ => true
       end
   end.
